@@ -162,15 +162,8 @@ impl Asm {
             Err(p) => Err(format!("PANIC: {}", panic_text(&p))),
             Ok(Err(e)) => Err(e),
             Ok(Ok((ctx, out))) => {
-                let PreprocessorContext {
-                    macro_nesting_counter: _,
-                    data_counter: _,
-                    label_map,
-                    macro_map: _,
-                    mapper,
-                    fn_map,
-                    undefined_labels,
-                } = ctx;
+                // only the documented fields are used; `..` keeps this building if the context grows
+                let PreprocessorContext { label_map, mapper, fn_map, undefined_labels, .. } = ctx;
                 let mut undefined: Vec<(usize, String)> = undefined_labels
                     .into_iter()
                     .filter(|(_, l)| !label_map.contains_key(l))
@@ -178,7 +171,7 @@ impl Asm {
                 undefined.sort();
                 Ok(Assembled {
                     out,
-                    ictx: InterpreterContext { fn_map, label_map, call_stack: Vec::new() },
+                    ictx: { let mut c = InterpreterContext::default(); c.fn_map = fn_map; c.label_map = label_map; c },
                     source_map: mapper.get_source_map(),
                     undefined,
                 })
